@@ -416,3 +416,72 @@ def replay(func, cex):   # noqa: F811
         return {"violated": bool(why), "observed": why, "what": f"program {p['name']} f({a}, {b}, {bool(c)}): {why}\n{p['src']}",
                 "fingerprint": f"rd:{p['name']}:{p.get('hash') or __import__('hashlib').sha256(p['src'].encode()).hexdigest()[:10]}"}
     return _replay_cfg(func, cex)
+
+
+# ---- C07: every run-time call is in the computed call graph ------------------------------------------------------------
+def call_tables(i):
+    p = BATCH["programs"][i]
+    if "_calls" not in p:
+        triples = set()
+        for r in p.get("callpaths", []):
+            path = r.get("call_path")
+            if isinstance(path, str):
+                path = json.loads(path)
+            for site in path or []:
+                triples.add((int(site[0]), int(site[1]), int(site[2])))
+        ctx = set()
+        for r in p.get("status", []):
+            ctx.add(r["method_id"])
+        p["_calls"] = (frozenset(triples), frozenset(ctx))
+    return p["_calls"]
+
+
+def call_violation(i, args):
+    triples, contexts = call_tables(i)
+    events = []
+
+    def on_call(act, stmt_id, callee_id):
+        if stmt_id:
+            events.append((act.method_id, stmt_id, callee_id))
+    outs, ret, err = run_gir(i, args, hooks={"on_call": on_call})
+    for ev in events:
+        if ev not in triples:
+            return f"method {ev[0]} calls method {ev[2]} at statement {ev[1]} but no stored call path contains that call site"
+        if ev[0] != ev[2] and hash(ev) not in contexts:
+            return f"call site {ev} is in the call paths but the callee was never analysed under it (no statement status for that context)"
+    return None
+
+
+def check_calls(pidx: int, a: int, b: int, c: bool) -> bool:
+    """
+    pre: _pre(pidx, a, b)
+    post: _
+    """
+    why = call_violation(pidx, (a, b, c))
+    if why:
+        return fail("calls", prog=BATCH["programs"][pidx]["name"], pidx=pidx, args=[a, b, c], why=why)
+    return True
+
+
+def check_calls_reach(pidx: int, a: int, b: int, c: bool) -> bool:
+    """
+    pre: _pre(pidx, a, b)
+    post: _
+    """
+    triples, contexts = call_tables(pidx)
+    return not (len(triples) >= 1 and call_violation(pidx, (a, b, c)) is None)
+
+
+_replay_rd = replay
+
+
+def replay(func, cex):   # noqa: F811
+    if func.startswith("check_calls"):
+        prepare({"batch": SLICE["batch"]}) if not BATCH["programs"] else None
+        i = cex["pidx"]
+        a, b, c = cex["args"]
+        p = BATCH["programs"][i]
+        why = call_violation(i, (a, b, bool(c)))
+        return {"violated": bool(why), "observed": why, "what": f"program {p['name']} f({a}, {b}, {bool(c)}): {why}\n{p['src']}",
+                "fingerprint": f"calls:{p['name']}:{p.get('hash') or __import__('hashlib').sha256(p['src'].encode()).hexdigest()[:10]}"}
+    return _replay_rd(func, cex)
